@@ -88,6 +88,9 @@ FileLoad(e) ==
                   \cup (IF (st.halted = 1) # e.opts.halted THEN {"halted"} ELSE {})
                   \cup (IF (st.ei = 1) # e.opts.eilast THEN {"eilast"} ELSE {})
                   \cup (IF st.pfx # 0 THEN {"inherited"} ELSE {})
+                  \* the Q latch ("did the last instruction change the flags", seen by the next SCF/CCF): clear unless the file
+                  \* says otherwise (SZX flag FSET) - equivalent files give machines that behave identically
+                  \cup (IF st.q # (IF e.opts.fset THEN d.cpu.af % 256 ELSE 0) THEN {"q"} ELSE {})
                   \cup (IF e.is_sna THEN {}
                         ELSE \* a halted machine stays halted (IFF1 = 0 in these files) and never reaches the INC A behind the HALTs
                              (IF e.opts.halted /\ (e.after3.a # Hi(d.cpu.af) \/ ~e.after3.halted) THEN {"halted:runs-on"} ELSE {})
